@@ -1088,7 +1088,7 @@ func (g *Gen) siteOrd(match string, x ssa.Instruction) (int, bool) {
 						continue
 					}
 				default:
-					if exact || !strings.Contains(k, match) {
+					if exact || (match != "*" && !strings.Contains(k, match)) {
 						continue
 					}
 				}
@@ -1132,12 +1132,12 @@ func (g *Gen) siteClauses(b *ssa.BasicBlock, ins ssa.CallInstruction, st *State,
 	}
 	var env *Env
 	for _, sc := range g.con.Sites {
-		if !strings.Contains(key, sc.Match) {
+		if sc.Match != "*" && !strings.Contains(key, sc.Match) {
 			continue
 		}
 		ord, ok := g.siteOrd(sc.Match, ins.(ssa.Instruction))
-		if !ok || ord != sc.Ord {
-			continue
+		if !ok || (ord != sc.Ord && sc.Match != "*") {
+			continue // `site *#0`: every call of the function (clauses apply in the order they are written)
 		}
 		if after != (sc.Kind == "ghostafter") {
 			continue
